@@ -82,18 +82,21 @@ LST = {
 STEMS = ['m', 'm', 'comp.v2']       # a structure name with a dot in it is a legal file stem
 
 
-SAYS = ['', '', ' ** CANNOT OPEN FILE m.fab **', ' ** Cannot open file M.FAB **', ' ** CANNOT OPEN FILE m.hkl **', ' ** CANNOT RESOLVE SAME **', ' ** Extinction (EXTI) or solvent water (SWAT) correction may be required **',
+SAYS = ['', '', ' TITL M\udcfcller in P-1   (a byte that is not UTF-8, as SHELXL echoes a latin-1 title)', ' ** CANNOT OPEN FILE m.fab **', ' ** Cannot open file M.FAB **', ' ** CANNOT OPEN FILE m.hkl **', ' ** CANNOT RESOLVE SAME **', ' ** Extinction (EXTI) or solvent water (SWAT) correction may be required **',
         ' R1 =  0.0500 for   1234 Fo > 4sig(Fo)  and  0.0600 for all   2000 data', ' +  Copyright(C) George M. Sheldrick 1993-2018     Version 2018/3  +',
         ' ** MERG code changed to 0 **', ' ** Bond(s) to C1 ignored **', ' wR2 = 0.1 before cycle 1 for 2000 data', ' +  m   finished at 12:00:00   Total elapsed time: 1.0 secs  +']
 
 
-def run_refine(tmp, text, newtext, mode, cycles, keep=False, stem='m', lst='none', block_saves=False, say=''):
+def run_refine(tmp, text, newtext, mode, cycles, keep=False, stem='m', lst='none', block_saves=False, say='', from_ins=False):
     if not keep:
         for f in os.listdir(tmp):
             p = os.path.join(tmp, f)
             if f not in ('bin',):
                 shutil.rmtree(p) if os.path.isdir(p) else os.remove(p)
         open(os.path.join(tmp, stem + '.res'), 'wb').write(text.encode('utf-8'))
+        if from_ins:
+            # the model is read from the instruction file of the last run (same content), the result file is there as well
+            open(os.path.join(tmp, stem + '.ins'), 'wb').write(text.encode('utf-8'))
     else:
         for f in (stem + '.seen_ins', stem + '.ins'):
             if os.path.exists(os.path.join(tmp, f)):
@@ -117,7 +120,7 @@ def run_refine(tmp, text, newtext, mode, cycles, keep=False, stem='m', lst='none
     shx = Shelxfile()
     try:
         with contextlib.redirect_stdout(io.StringIO()):
-            shx.read_file(stem + '.res')
+            shx.read_file(stem + ('.ins' if from_ins and not keep else '.res'))
             pre_lines = [str(x) for i, x in enumerate(shx._reslist) if i not in shx.delete_on_write and str(x) != '']
             had_acta = shx.acta is not None
             try:
@@ -249,7 +252,10 @@ def run(ctx):
                     lst = 'none'        # this behaviour writes its own listing
                 blocked = rng.random() < 0.2       # the history directory shxsaves cannot be created (a file of that name exists)
                 say = rng.choice(SAYS)
-                r = run_refine(tmp, text, newtext, mode, cycles, stem=stem, lst=lst, block_saves=blocked, say=say)
+                from_ins = rng.random() < 0.15
+                r = run_refine(tmp, text, newtext, mode, cycles, stem=stem, lst=lst, block_saves=blocked, say=say, from_ins=from_ins)
+                if from_ins:
+                    hist['model read from .ins'] = hist.get('model read from .ins', 0) + 1
                 if say:
                     hist['shelxl output line'] = hist.get('shelxl output line', 0) + 1
                 if blocked:
@@ -258,7 +264,7 @@ def run(ctx):
                 hist[mode] = hist.get(mode, 0) + 1
                 hist['listing ' + lst] = hist.get('listing ' + lst, 0) + 1
                 hist['stem ' + stem] = hist.get('stem ' + stem, 0) + 1
-                case = {'text': text, 'mode': mode, 'cycles': cycles, 'stem': stem, 'listing': LST[lst], 'shxsaves_blocked': blocked, 'shelxl_says': say}
+                case = {'text': text, 'mode': mode, 'cycles': cycles, 'stem': stem, 'listing': LST[lst], 'shxsaves_blocked': blocked, 'shelxl_says': say, 'read_from_ins': from_ins}
                 failed = mode in FAILS
                 if failed:
                     if r['res'] != text:
